@@ -5,6 +5,7 @@ Formats with a Lean container model: FLAC.
 import MutagenModel.Proofs.Container.Flac
 import MutagenModel.Proofs.Container.ApeFile
 import MutagenModel.Proofs.Container.Id3File
+import MutagenModel.Proofs.Container.Iff
 set_option linter.unusedVariables false
 namespace Mutagen.C08
 open Mutagen Mutagen.FlacC
@@ -62,5 +63,76 @@ theorem ape_delete_leaves_audio (audio : Bytes) (items : List Ape.Item)
 theorem ape_delete_idempotent_and_retag (audio newTag : Bytes) (h : ApeF.locate audio = .ok none) :
     ApeF.delete audio = .ok audio ∧ ApeF.save audio newTag = .ok (audio ++ newTag) :=
   ⟨ApeF.delete_untagged audio h, ApeF.save_untagged audio newTag h⟩
+
+/-! ## IFF-style chunk files (AIFF, WAVE, DSDIFF) -/
+
+/-- IFF delete removes the whole ID3 chunk — its header, its data and its pad byte, `c.render` — and
+leaves the form type and the other chunks byte for byte; the file shrinks by exactly the chunk -/
+theorem iff_delete_removes_chunk (d : Iff.Dialect) (hd : d.WF) (L : Iff.Layout) (h : L.OK d) (c : Iff.Chunk)
+    (hc : L.id3 = some c) :
+    ∃ out, Iff.delete d (L.render d) = .ok out ∧ out = Iff.renderFile d L.formType (L.before ++ L.after) ∧
+      out.length + (c.render d).length = (L.render d).length ∧
+      (c.render d).length = Iff.hs d + c.data.length + c.data.length % 2 := by
+  have h1 := Iff.delete_layout d hd L h
+  have e : L.without.render d = Iff.renderFile d L.formType (L.before ++ L.after) := by
+    simp [Iff.Layout.render, Iff.Layout.without, Iff.Layout.chunks]
+  have hc' := h.id3 c hc
+  refine ⟨_, h1, e, ?_, by rw [Iff.length_render d c hc'.1.1.1, hc'.1.2]⟩
+  rw [e, Iff.Layout.render, Iff.chunks_some L c hc, Iff.length_renderFile d hd, Iff.length_renderFile d hd]
+  simp only [Iff.renderChunks_append, Iff.renderChunks, List.length_append]
+  omega
+
+/-- a file without an ID3 chunk is left alone -/
+theorem iff_delete_untagged (d : Iff.Dialect) (hd : d.WF) (L : Iff.Layout) (h : L.OK d) (hc : L.id3 = none) :
+    Iff.delete d (L.render d) = .ok (L.render d) := by
+  have h1 := Iff.delete_layout d hd L h
+  have e : L.without.render d = L.render d := by
+    simp [Iff.Layout.render, Iff.Layout.without, Iff.Layout.chunks, hc, h.afterNone hc]
+  rw [e] at h1; exact h1
+
+/-- what delete leaves is a well-formed file without an ID3 chunk (when no later chunk is called like
+one: mutagen removes the first ID3 chunk only) -/
+theorem iff_delete_then_wellformed (d : Iff.Dialect) (L : Iff.Layout) (h : L.OK d)
+    (hafter : ∀ c ∈ L.after, c.isId3 d = false) : L.without.OK d ∧ L.without.id3 = none :=
+  ⟨Iff.without_ok d L h hafter, rfl⟩
+
+/-- deleting again changes nothing -/
+theorem iff_delete_idempotent (d : Iff.Dialect) (hd : d.WF) (L : Iff.Layout) (h : L.OK d)
+    (hafter : ∀ c ∈ L.after, c.isId3 d = false) :
+    ∃ out, Iff.delete d (L.render d) = .ok out ∧ Iff.delete d out = .ok out :=
+  ⟨_, Iff.delete_layout d hd L h, iff_delete_untagged d hd _ (Iff.without_ok d L h hafter) rfl⟩
+
+/-- a new tag can be saved after a delete: it lands in a new chunk (the dialect's id) behind all other
+chunks, which stay as they are, and the result is a well-formed file again -/
+theorem iff_retag_after_delete (d : Iff.Dialect) (hd : d.WF) (L : Iff.Layout) (h : L.OK d)
+    (hafter : ∀ c ∈ L.after, c.isId3 d = false) (vmaj : Nat) (hvm : vmaj = 3 ∨ vmaj = 4) (frames : Bytes) (pad : PadChoice)
+    (p : Nat) (hp : getPadding pad ((0 : Int) - (frames.length + 10 : Nat)) 0 = p) (hfit : frames.length + p < 2 ^ 28)
+    (hroot : 4 + L.without.newExtent d (10 + frames.length + p) < 256 ^ d.sizeW) :
+    ∃ out hdr out', Iff.delete d (L.render d) = .ok out ∧ Id3F.header vmaj (frames.length + p) = .ok hdr ∧
+      Iff.save d out vmaj frames pad = .ok out' ∧
+      out' = Iff.renderFile d L.formType (L.before ++ L.after ++ [Iff.tagChunk d.newId (hdr ++ frames ++ zeros p)]) ∧
+      Iff.readFile d out' = some (L.formType, L.before ++ L.after ++ [Iff.tagChunk d.newId (hdr ++ frames ++ zeros p)]) := by
+  have hw := Iff.without_ok d L h hafter
+  obtain ⟨hdr, h1, h2, h3⟩ := Iff.save_layout d hd L.without hw vmaj hvm frames pad p
+    (by simpa [Iff.Layout.oldLen, Iff.Layout.trailing, Iff.Layout.without] using hp) hfit hroot
+  have hl : (hdr ++ frames ++ zeros p).length = 10 + frames.length + p := by simp [h2]; omega
+  have hok := Iff.withTag_ok d hd L.without hw (hdr ++ frames ++ zeros p) (by rw [hl]; exact hroot)
+  have hrd := Iff.readFile_layout d hd _ hok
+  have hch : (L.without.withTag d (hdr ++ frames ++ zeros p)).chunks =
+      L.before ++ L.after ++ [Iff.tagChunk d.newId (hdr ++ frames ++ zeros p)] := by
+    simp [Iff.Layout.withTag, Iff.Layout.chunks, Iff.Layout.without, Iff.Layout.id3Id]
+  refine ⟨_, hdr, _, Iff.delete_layout d hd L h, h1, h3, ?_, ?_⟩
+  · simp only [Iff.Layout.render, hch]; rfl
+  · rw [hch] at hrd; exact hrd
+
+/-- the hypotheses are satisfiable: a DSDIFF file "DSD " with an FVER chunk, an ID3 chunk of 11 bytes
+(one pad byte) and a PROP container chunk behind it that is not called like an ID3 chunk -/
+example : ∃ L : Iff.Layout, L.OK Iff.dsdiff ∧ (∀ c ∈ L.after, c.isId3 Iff.dsdiff = false) ∧ L.id3.isSome = true := by
+  refine ⟨Iff.Layout.mk [0x44, 0x53, 0x44, 0x20] [⟨[0x46, 0x56, 0x45, 0x52], [1, 5, 0, 0], []⟩]
+    (some ⟨[0x49, 0x44, 0x33, 0x20], List.replicate 11 7, [0]⟩) [⟨[0x50, 0x52, 0x4F, 0x50], [0x53, 0x4E, 0x44, 0x20], []⟩],
+    ⟨by decide, by decide +kernel, ?_, by decide +kernel, by simp, by decide +kernel⟩, by decide +kernel, rfl⟩
+  intro c hc
+  cases hc
+  decide +kernel
 
 end Mutagen.C08
